@@ -12,7 +12,7 @@ class StackFrame:
         self.return_addr = None
 
     def get_variable(self, identifier):
-        for place in (self.constants, self.vars, self.params, self.globals):
+        for place in (self.constants, self.vars, self.globals):
             if identifier in place:
                 return place[identifier]
         return None
